@@ -61,6 +61,19 @@ func c15Payloads(rng *rand.Rand) []string {
 		"PRIVMSG #c :\r",
 		"PART #c :bye\r" + inj,
 		"KICK #c obs :out\r" + inj,
+		// a separator in the very first position, more of them later
+		"\rPRIVMSG #c :hi\r\n" + inj,
+		"\nPRIVMSG #c :hi\r\n" + inj,
+		"\x00PRIVMSG #c :hi\x00there",
+		"\r\nPRIVMSG #c :x\r" + inj,
+		"\rPRIVMSG #c :a\x00b",
+	}
+	// long lines of 2-, 3- and 4-byte characters with every alignment of the 510-byte cut
+	for _, ch := range []string{"é", "€", "\U0001F600", "\u0800"} {
+		for pad := 0; pad < 4; pad++ {
+			out = append(out, "PRIVMSG #c :"+strings.Repeat("a", pad)+strings.Repeat(ch, 520/len(ch)+1))
+			out = append(out, "TOPIC #c :"+strings.Repeat("b", pad)+strings.Repeat(ch, 520/len(ch)+1))
+		}
 	}
 	for i := 0; i < 25; i++ {
 		n := rng.Intn(400) + 1
@@ -146,7 +159,8 @@ func TestVerifC15HTTP(t *testing.T) {
 			rep.Obs(fmt.Sprintf("post.status.%d", code), 1)
 		}
 		// the quit message of DELETE is relayed too
-		quit, _ := json.Marshal(struct{ Quitmessage string }{"bye\r\n:victim!u@h PRIVMSG #c :forged\x00"})
+		quits := []string{"bye\r\n:victim!u@h PRIVMSG #c :forged\x00", "\rbye\r\n:victim!u@h PRIVMSG #c :forged", "\x00bye\x00bye", "plain bye"}
+		quit, _ := json.Marshal(struct{ Quitmessage string }{quits[(r+int(verifrep.Seed()))%len(quits)]})
 		c.deleteSession(att, quit)
 		p(obs, "PRIVMSG #c :END-OF-ROUND")
 		p(obs, fmt.Sprintf("PRIVMSG obs%d :END-OF-ROUND", r))
@@ -442,7 +456,7 @@ func robustLogAt(n *vnode, idx uint64) *robust.Message {
 	if err != nil || l.Type != 0 {
 		return nil
 	}
-	m := robust.NewMessageFromBytes(l.Data, l.Index)
+	m := robust.NewMessageFromBytes(l.Data, robust.IdFromRaftIndex(l.Index))
 	return &m
 }
 
